@@ -306,8 +306,8 @@ class MediaDescription:
             if self.rtcp_host is not None:
                 line += f" {ipaddress_to_sdp(self.rtcp_host)}"
             lines.append(line)
-            if self.rtcp_mux:
-                lines.append("a=rtcp-mux")
+        if self.rtcp_mux:
+            lines.append("a=rtcp-mux")
 
         for group in self.ssrc_group:
             lines.append(f"a=ssrc-group:{group}")
